@@ -1659,8 +1659,9 @@ fn process_stream_search_params<T: Read + Write>(
         }
         i += 1;
     }
+    // i is the first position that was not examined yet (it was advanced past the last examined one)
     let next_search_idx = if i < stream_msgs_len {
-        Some(i + 1)
+        Some(i)
     } else {
         None
     };
